@@ -33,11 +33,11 @@ static int64_t* nv_t2i_at(const struct nv_t2i* t, int64_t i, int64_t j)
 
 #define NV_CONTRACT_dataset_check_samples \
 __CPROVER_requires(__CPROVER_is_fresh(self, sizeof(*self)) && NV_DATASOURCE_OK(self->m_datasource) && NV_T1I_OK(samples)) \
-__CPROVER_requires(0 <= nv_g && nv_g < samples.n) \
+__CPROVER_requires(samples.n == 0 || (0 <= nv_g && nv_g < samples.n))      /* nv_g: an arbitrary position of an arbitrary (unsorted, repeating) list */ \
 __CPROVER_assigns(nv_thrown, nv_w_index, nv_w_listsize) \
 /* returning normally means every listed index (ghost position) is a valid sample */ \
-__CPROVER_ensures(!nv_thrown ==> 0 <= samples.p[nv_g]) \
-__CPROVER_ensures(!nv_thrown ==> samples.p[nv_g] < NV_SAMPLES(self)) \
+__CPROVER_ensures((!nv_thrown && samples.n > 0) ==> 0 <= samples.p[nv_g]) \
+__CPROVER_ensures((!nv_thrown && samples.n > 0) ==> samples.p[nv_g] < NV_SAMPLES(self)) \
 /* and a list of valid samples is not rejected (only given at the ghost position: cannot be stated without a quantifier) */
 
 /* dataset invariant established by dataset_t::update(): the feature mapping has 5 columns, one row per feature, and
